@@ -54,6 +54,9 @@ func depexText(b []byte) string {
 type reader struct {
 	out []string
 	err string
+	// deep (gap closing round 3, gap3.go; nil = a GUID-defined section is one opaque record): a decoder
+	// for the payload of a GUID-defined section; when it succeeds the children are listed instead
+	deep func(rest []byte, size int, hl int) ([]byte, bool)
 }
 
 func (r *reader) fail(f string, a ...interface{}) {
@@ -89,6 +92,15 @@ func (r *reader) sections(b []byte) {
 			if len(body) < 20 {
 				r.fail("GUID-defined section without its header")
 				return
+			}
+			if r.deep != nil {
+				if inner, ok := r.deep(b[off:], size, hl); ok {
+					r.out = append(r.out, fmt.Sprintf("sec type=2 guid=%s attrs=%d packed {", hex.EncodeToString(body[:16]),
+						binary.LittleEndian.Uint16(body[18:])))
+					r.sections(inner)
+					r.out = append(r.out, "}")
+					break
+				}
 			}
 			r.out = append(r.out, fmt.Sprintf("sec type=2 guid=%s attrs=%d body=%s", hex.EncodeToString(body[:16]),
 				binary.LittleEndian.Uint16(body[18:]), fnvRec(body[20:])))
